@@ -701,7 +701,7 @@ TRUSTED = [
     "timers are outputs only (the cluster model lets a timeout or heartbeat fire at any moment)",
 ]
 
-COQ_FILES = ["C11/Model.v", "C11/NodeProofs.v", "C11/Props.v"]
+COQ_FILES = ["C11/Model.v", "C11/NodeProofs.v", "C11/Election.v", "C11/Props.v"]
 
 
 class SmallShards:
